@@ -1567,6 +1567,11 @@ var shapeTargets = []shapeTarget{
 	{"internal/transfer", "RecvManifestMultiStream", "", "assign:registered", "filewait_ready_pred"},
 	{"internal/transfer", "RecvManifestMultiStream", "", "args:fileReady.signal", "filewait_signal_args"},
 	{"internal/transfer", "RecvManifestMultiStream", "", "seq:stateByKey[key] = state|fileReady.signal(key)|state := stateByKey[fileKey]|verifhook.Point(\"recv.reader.before_wait\", fileKey)", "filewait_order"},
+	// Sidecar.Flush: mutex around marshal, temp write and rename (Model/Flushers)
+	{"internal/transfer", "Flush", "Sidecar", "body-head:2", "sidecar_flush_head"},
+	{"internal/transfer", "Flush", "Sidecar", "seq:temp := s.Path + \".tmp\"|verifhook.Point(\"sidecar.between_tmp_and_rename\")|verifhook.Point(\"sidecar.after_rename\")|s.dirty = false", "sidecar_flush_io"},
+	{"internal/transfer", "Flush", "Sidecar", "args:os.WriteFile", "sidecar_flush_write_args"},
+	{"internal/transfer", "Flush", "Sidecar", "args:os.Rename", "sidecar_flush_rename_args"},
 	// multi-connection stream placement and acceptance (Model/ProtoLMC)
 	{"internal/transfer", "OpenStream", "multiConn", "assign:idx", "multiconn_open_rr"},
 	{"internal/transfer", "AcceptStream", "multiConn", "if-all", "multiconn_accept_ifs"},
@@ -1671,9 +1676,15 @@ func (w *world) shapesIn(body *ast.BlockStmt, sel string) []string {
 		}
 		return res
 	}
-	if sel == "body-stmts" {
-		// every top-level statement of the body, in order, as one line of source text each
-		for _, st := range body.List {
+	if sel == "body-stmts" || strings.HasPrefix(sel, "body-head:") {
+		// every top-level statement of the body (or the first N), in order, as one line of source text each
+		limit := len(body.List)
+		if strings.HasPrefix(sel, "body-head:") {
+			if n, err := strconv.Atoi(sel[10:]); err == nil && n < limit {
+				limit = n
+			}
+		}
+		for _, st := range body.List[:limit] {
 			var buf bytes.Buffer
 			printer.Fprint(&buf, w.fset, st)
 			res = append(res, strings.Join(strings.Fields(buf.String()), " "))
